@@ -146,7 +146,7 @@ class _Fail(Exception):
 
 
 def hyp_search(ctx: Ctx, label: str, strategy, evaluate: Callable[[Any], list], max_examples: int,
-               part: Partial, shrink_budget_s: float = 40.0, stateful_machine=None):
+               part: Partial, shrink_budget_s: float = 20.0, model_shrink: bool = True):
     """Drive `evaluate` with Hypothesis.  evaluate(x) -> list[Violation] (already filtered for known findings,
     and having recorded its statistics in `part`).  The first unattributed failure is shrunk and recorded."""
     import hypothesis
@@ -156,17 +156,13 @@ def hyp_search(ctx: Ctx, label: str, strategy, evaluate: Callable[[Any], list], 
 
     def body(x):
         if st["t0"] is not None and time.time() - st["t0"] > shrink_budget_s:
-            # shrink budget used up: only the current best keeps failing, so the shrinker winds down
-            v = st["last"][1] if st["last"] and _safe_digest(x) == st["best_digest"] else []
-            if v:
-                raise _Fail()
-            return
+            # shrink budget used up: stop Hypothesis decisively; the smallest failing example seen so far is reported
+            raise KeyboardInterrupt()
         v = evaluate(x)
         if v:
             if st["t0"] is None:
                 st["t0"] = time.time()
             st["last"] = (x, v)
-            st["best_digest"] = _safe_digest(x)
             raise _Fail()
 
     sett = settings(
@@ -184,6 +180,9 @@ def hyp_search(ctx: Ctx, label: str, strategy, evaluate: Callable[[Any], list], 
         test()
     except _Fail:
         pass
+    except KeyboardInterrupt:
+        if st["last"] is None:
+            raise
     except hypothesis.errors.Flaky:
         if st["last"] is None:
             raise
@@ -193,6 +192,13 @@ def hyp_search(ctx: Ctx, label: str, strategy, evaluate: Callable[[Any], list], 
             raise
     if st["last"] is not None:
         x, v = st["last"]
+        if model_shrink and isinstance(x, (dict, list)):
+            from vf.shrink import shrink_model
+            sig = v[0].signature
+            small = shrink_model(x, lambda m: any(y.signature == sig for y in evaluate(m)), budget_s=shrink_budget_s)
+            v2 = [y for y in evaluate(small) if y.signature == sig]
+            if v2:
+                v = v2
         part.violations.extend(v)
     return part
 
@@ -296,6 +302,15 @@ def main(argv=None):
                 print(f"REPLAY-PASS property={prop} {a.replay}")
             return 1 if viols else 0
         part: Partial = mod.run(ctx)
+        # replay tier: reproducers of repaired defects must pass (a "fixed" entry suppresses nothing)
+        import glob
+        for rp in sorted(glob.glob(os.path.join(HERE, "replay", "regress", f"{prop}-*.json"))):
+            with open(rp) as fh:
+                payload = json.load(fh)
+            for v in mod.replay(Ctx(prop, a.tier, seed, []), payload):
+                v.signature = v.signature + ":regressed:" + os.path.basename(rp)
+                part.violations.append(v)
+            part.hist["regress_replays"] += 1
     except HarnessError as e:
         print(f"HARNESS-ERROR property={prop}: {e}", file=sys.stderr)
         return 2
